@@ -118,6 +118,15 @@ def mode_build(req):
                     errs.append(err)
             d = dump_store(st)
             st.db.close()
+            if spec.get("old_schema"):
+                # a legacy file from before bucketmodel.datastr existed (auto_migrate's reason to be)
+                import sqlite3
+                f = os.path.join(data_dir(case["xdg"]),
+                                 "peewee-sqlite" + ("-testing" if spec["testing"] else "") + ".v2.db")
+                c = sqlite3.connect(f)
+                c.execute("ALTER TABLE bucketmodel DROP COLUMN datastr")
+                c.commit()
+                c.close()
             stores.append({"testing": spec["testing"], "ops": ops, "errs": errs, "dump": d})
         out.append({"stores": stores})
     return out
@@ -143,6 +152,18 @@ def mode_migrate(req):
     logging.getLogger("aw_datastore.storages.peewee").propagate = False
     from aw_datastore.storages import SqliteStorage
     out = {"exc": None}
+    # observe (not alter) what detect_db_files is shown: record os.listdir of the data dir
+    seen = []
+    real_listdir = os.listdir
+    dd = data_dir(req["xdg"])
+
+    def listdir(p="."):
+        r = real_listdir(p)
+        if os.path.abspath(p) == os.path.abspath(dd):
+            seen.append(sorted(r))
+        return r
+    os.listdir = listdir
+    out["check_listings"] = seen
     path = None
     if req.get("custom"):
         path = os.path.join(req["xdg"], req["custom"])
@@ -156,8 +177,9 @@ def mode_migrate(req):
     out["migration_log"] = cap.messages
     # what another connection (= a process started after a crash right now) would see
     import sqlite3
-    dbfile = path or os.path.join(data_dir(req["xdg"]),
-                                  "sqlite" + ("-testing" if req["testing"] else "") + ".v1.db")
+    dbfile = st.conn.execute("PRAGMA database_list").fetchone()[2]
+    out["dbfile"] = os.path.basename(dbfile)
+    out["listing_during"] = sorted(real_listdir(dd))
     other = sqlite3.connect(dbfile)
     out["committed_events"] = other.execute("SELECT count(*) FROM events").fetchone()[0]
     out["committed_buckets"] = other.execute("SELECT count(*) FROM buckets").fetchone()[0]
